@@ -143,8 +143,13 @@ def expr_pass(ctx, np, sympy, expr_as_matrix):
                     kw = {}
                     if mode == 'res_like':
                         rl_keys = rng.sample(full, min(len(full), 2))
-                        kw['res_like'] = MultiVector.fromkeysvalues(alg, tuple(rl_keys), [1] * len(rl_keys))
+                        # only the keys of res_like matter: its values may be a list, an ndarray (of ones or zeros), a tuple
+                        vform = rng.choice(['list', 'ndarray-ones', 'ndarray-zeros', 'tuple', 'list-zeros'])
+                        vals = {'list': [1] * len(rl_keys), 'ndarray-ones': np.ones(len(rl_keys)), 'ndarray-zeros': np.zeros(len(rl_keys)),
+                                'tuple': tuple([1] * len(rl_keys)), 'list-zeros': [0] * len(rl_keys)}[vform]
+                        kw['res_like'] = MultiVector.fromkeysvalues(alg, tuple(rl_keys), vals)
                         case['res_like'] = rl_keys
+                        case['res_like_values'] = vform
                     ctx.case(case, tag='expr:' + mode)
                     try:
                         A, y = expr_as_matrix(f, R, x, **kw)
